@@ -170,7 +170,8 @@ SPANS = {
     's120': dict(length=120.0, variety='SSMF', loss=0.2, pmd=None),
 }
 SPAN_SETS = [['s80', 's60n'], ['s80', 's60n', 's100p'], ['s80', 's60n', 's100p', 's120'], ['s40s', 's80', 's60n'],
-             ['s100p', 's100p', 's60n']]
+             ['s100p', 's100p', 's60n'], ['s40s', 's100p', 's60n', 's120']]
+SPAN_SETS_DEEP = [['s40s', 's80', 's60n', 's100p', 's120'], ['s100p', 's40s', 's100p', 's60n', 's40s']]
 LIB_D = {'SSMF': 1.67e-5, 'NZDSF': 0.5e-5}
 LIB_PMD = {'SSMF': 1.265e-15, 'NZDSF': 2.5e-15, 'SLOPE': 0.9e-15}
 AMP_PMDPDL = {'std_medium_gain': (3e-12, 0.7), 'std_low_gain': (1e-12, 0.3)}
@@ -596,7 +597,8 @@ def main(rep, tier, seed):
         cases.append({'kind': 'single', 'fibre': dict(zip(names, vals))})
     n_a = len(cases)
     amp_sets = [['std_medium_gain'], ['std_medium_gain', 'std_low_gain']]
-    for ss in SPAN_SETS:
+    span_sets = SPAN_SETS + (SPAN_SETS_DEEP if tier == 'thorough' else [])
+    for ss in span_sets:
         for am in amp_sets:
             cases.append({'kind': 'path', 'spans': ss, 'amps': am})
     for net_ in ('CL', 'CLS', 'mixed_C_then_CL', 'CLS_then_CL', 'wide_then_CL', 'narrowC'):
@@ -607,14 +609,14 @@ def main(rep, tier, seed):
     n_b2 = 12 + len(DESIGNED)
     sp = engine.Space(C_SPACE, constraint=lambda x: not (x['step'] == 100.0 and x['length'] == 80.0 and x['method'] == 'numerical'
                                                         and x['pumps'] == 'co_cnt'))
-    d = 2 if tier == 'quick' else 4
-    for x in sp.enumerate(d):
+    d = 3 if tier == 'quick' else len(C_SPACE)
+    for x in (sp.enumerate(d) if tier == 'quick' else sp.full()):
         cases.append({'kind': 'raman', 'raman': {k: x[k] for k in C_SPACE}})
-    n_c = len(cases) - n_a - len(SPAN_SETS) * len(amp_sets) - n_b2
+    n_c = len(cases) - n_a - len(span_sets) * len(amp_sets) - n_b2
     results, stats = engine.run_pool('checks.c05', cases, horizon=600)
     rep.absorb(results)
-    rep.cov['bound'] = (f'(a) full product over {list(A_SPACE)} = {n_a} single fibres; (b) {len(SPAN_SETS)} span sets x 2 amplifier '
-                        f'sequences, every order of each span list; (b2) 6 multi-band networks x 2 declaration orders of the band amplifiers x every path; (b3) 2 auto-designed networks (split fibres, Raman span after an automatic amplifier) x every path; (c) Raman settings within {d} deviations over {list(C_SPACE)} '
+    rep.cov['bound'] = (f'(a) full product over {list(A_SPACE)} = {n_a} single fibres; (b) {len(span_sets)} span sets x 2 amplifier '
+                        f'sequences, every order of each span list; (b2) 6 multi-band networks x 2 declaration orders of the band amplifiers x every path; (b3) 2 auto-designed networks (split fibres, Raman span after an automatic amplifier) x every path; (c) Raman settings {"within 3 deviations" if tier == "quick" else "full product"} over {list(C_SPACE)} '
                         f'= {n_c} configurations')
     rep.cov['space_size'] = len(cases)
     rep.cov['exhaustive'] = not stats['budget_hit'] and len(results) == len(cases)
